@@ -15,17 +15,23 @@ import (
 	"encoding/json"
 	"flag"
 	"fmt"
+	"io"
 	"os"
 	"reflect"
 	"runtime"
 	"runtime/debug"
+	"runtime/pprof"
+	"runtime/trace"
 	"strings"
 	"sync"
 	"sync/atomic"
+	"time"
+	"unicode/utf8"
 	"unsafe"
 
 	"github.com/bytedance/sonic"
 	"github.com/bytedance/sonic/loader"
+	"github.com/bytedance/sonic/option"
 	"github.com/bytedance/sonic/verifx"
 
 	"verif/harness/internal/rng"
@@ -486,7 +492,34 @@ func (c *callbackT) UnmarshalText(b []byte) error {
 	return nil
 }
 
+// a map KEY type with text methods: the generated decoder allocates the key, parks it in the hidden `vk` argument slot and
+// calls UnmarshalText; the callback collects and churns the heap AFTER its last use of the receiver
+type tkey struct{ S string }
+
+func (k tkey) MarshalText() ([]byte, error) { stress(); return []byte("k:" + k.S), nil }
+func (k *tkey) UnmarshalText(b []byte) error {
+	k.S = strings.TrimPrefix(string(b), "k:")
+	stress()
+	churn()
+	return nil
+}
+
+// churn frees and re-fills the small size classes so that an object the collector wrongly released is overwritten
+func churn() {
+	junk := make([]*tkey, 0, 512)
+	for i := 0; i < 512; i++ {
+		junk = append(junk, &tkey{S: "junk"})
+	}
+	runtime.GC()
+	for i := range junk {
+		junk[i] = &tkey{S: "JUNK"}
+	}
+	runtime.KeepAlive(junk)
+}
+
 type big struct {
+	MK  map[tkey]int
+	MKP map[tkey]*leaf
 	L   leaf
 	P   *leaf
 	S   []leaf
@@ -621,8 +654,87 @@ func grow(n int, pad [128]byte) byte {
 	return grow(n-1, pad) + pad[1]
 }
 
+// what the callbacks do: 0 = collect / walk / grow (gc mode), 1 = block under the profilers (prof mode),
+// 2 = resolve the names of all frames (names mode)
+var stressKind int32
+
+var (
+	pmu       sync.Mutex
+	nameStats struct {
+		sync.Mutex
+		jit   int
+		bad   []string
+		names map[string]int
+	}
+)
+
+// blocky parks the goroutine - with generated frames below it - on a channel, a contended mutex and a timer
+func blocky() {
+	ch := make(chan int)
+	go func() { time.Sleep(50 * time.Microsecond); ch <- 1 }()
+	<-ch
+	pmu.Lock()
+	pmu.Unlock()
+	time.Sleep(20 * time.Microsecond)
+	stressStats.Lock()
+	stressStats.gcs++
+	stressStats.Unlock()
+}
+
+func saneName(n string) bool {
+	if !utf8.ValidString(n) || n == "" {
+		return false
+	}
+	for _, c := range n {
+		if c < 0x20 || c == 0x7f {
+			return false
+		}
+	}
+	return strings.HasPrefix(n, "encode_") || strings.HasPrefix(n, "decode_") || strings.HasPrefix(n, "sonic.jit.")
+}
+
+// resolveNames walks the stack and resolves every frame's function name the way tracebacks do
+func resolveNames() {
+	pcs := make([]uintptr, 64)
+	k := runtime.Callers(0, pcs)
+	fr := runtime.CallersFrames(pcs[:k])
+	st := string(debug.Stack())
+	for {
+		f, more := fr.Next()
+		if f.File == "?" { // generated code carries no line table: its frames have no file
+			nameStats.Lock()
+			nameStats.jit++
+			if nameStats.names == nil {
+				nameStats.names = map[string]int{}
+			}
+			nameStats.names[f.Function]++
+			fn := runtime.FuncForPC(f.PC)
+			if !saneName(f.Function) || fn == nil || fn.Name() != f.Function || !strings.Contains(st, f.Function+"(") {
+				if len(nameStats.bad) < 5 {
+					nameStats.bad = append(nameStats.bad, fmt.Sprintf("%q", f.Function))
+				}
+			}
+			nameStats.Unlock()
+		}
+		if !more {
+			break
+		}
+	}
+	stressStats.Lock()
+	stressStats.gcs++
+	stressStats.Unlock()
+}
+
 // stress is called from inside user callbacks, i.e. with generated frames on the stack
 func stress() {
+	switch atomic.LoadInt32(&stressKind) {
+	case 1:
+		blocky()
+		return
+	case 2:
+		resolveNames()
+		return
+	}
 	// traceback through the generated frames
 	pcs := make([]uintptr, 64)
 	k := runtime.Callers(0, pcs)
@@ -668,7 +780,9 @@ func sampleBig(r *rng.R) big {
 	pc := callbackM{r.Intn(50)}
 	b := big{L: l1, P: &l2, M: map[string]*leaf{"a": &l1, "b": nil}, CM: callbackM{r.Intn(99)}, PCM: &pc, CT: callbackT{"ct" + fmt.Sprint(r.Intn(9))},
 		MT: map[string]callbackT{"x": {"mx"}, "y": {"my"}}, Any: map[string]interface{}{"deep": []interface{}{1.5, "two", map[string]interface{}{"z": nil}}},
-		Str: "str", N: int64(r.Intn(1 << 40))}
+		Str: "str", N: int64(r.Intn(1 << 40)),
+		MK:  map[tkey]int{{"a" + fmt.Sprint(r.Intn(99))}: 1, {"b"}: 2, {strings.Repeat("k", 1+r.Intn(30))}: r.Intn(9)},
+		MKP: map[tkey]*leaf{{"p" + fmt.Sprint(r.Intn(9))}: &l2, {"q"}: nil}}
 	for i := r.Intn(4); i >= 0; i-- {
 		b.S = append(b.S, lf())
 		b.SM = append(b.SM, callbackM{i})
@@ -747,6 +861,180 @@ func gcMode() {
 	stressStats.Unlock()
 }
 
+// roundTrip: one Marshal + Unmarshal of a sample value through generated code, checked against encoding/json
+func roundTrip(r *rng.R) string {
+	v := sampleBig(r)
+	got, err := sonic.ConfigStd.Marshal(&v)
+	want, err2 := json.Marshal(&v)
+	if err != nil || err2 != nil || !bytes.Equal(got, want) {
+		return fmt.Sprintf("marshal differs: %v %v\n sonic=%s\n   std=%s", err, err2, got, want)
+	}
+	var a, b big
+	if err := sonic.ConfigStd.Unmarshal(want, &a); err != nil {
+		return fmt.Sprintf("unmarshal error %v", err)
+	}
+	json.Unmarshal(want, &b)
+	if !reflect.DeepEqual(a, b) {
+		ja, _ := json.Marshal(a)
+		jb, _ := json.Marshal(b)
+		return fmt.Sprintf("decoded value differs\n sonic=%s\n   std=%s", ja, jb)
+	}
+	return ""
+}
+
+// profMode: callbacks inside generated encoder and decoder frames block (channel, mutex, timer) while the block profiler,
+// the mutex profiler, the execution tracer and the CPU profiler are on - the frame-pointer and pcsp unwinders cross
+// generated frames
+func profMode() {
+	atomic.StoreInt32(&stressKind, 1)
+	runtime.SetBlockProfileRate(1)
+	runtime.SetMutexProfileFraction(1)
+	var tb, cb bytes.Buffer
+	if err := trace.Start(&tb); err != nil {
+		panic(err)
+	}
+	if err := pprof.StartCPUProfile(&cb); err != nil {
+		panic(err)
+	}
+	stop := make(chan struct{})
+	go func() { // keeps pmu contended
+		for {
+			select {
+			case <-stop:
+				return
+			default:
+			}
+			pmu.Lock()
+			time.Sleep(30 * time.Microsecond)
+			pmu.Unlock()
+			time.Sleep(30 * time.Microsecond)
+		}
+	}()
+	deadline := time.Now().Add(time.Duration(*n) * 100 * time.Millisecond)
+	var wg sync.WaitGroup
+	var rounds int64
+	var failure atomic.Value
+	for g := 0; g < 3; g++ {
+		wg.Add(1)
+		rr := rng.New(*seed + uint64(g))
+		go func() {
+			defer wg.Done()
+			for time.Now().Before(deadline) {
+				if msg := roundTrip(rr); msg != "" {
+					failure.Store(msg)
+					return
+				}
+				atomic.AddInt64(&rounds, 1)
+			}
+		}()
+	}
+	wg.Wait()
+	close(stop)
+	pprof.StopCPUProfile()
+	trace.Stop()
+	pprof.Lookup("block").WriteTo(io.Discard, 1)
+	pprof.Lookup("mutex").WriteTo(io.Discard, 1)
+	pprof.Lookup("goroutine").WriteTo(io.Discard, 2)
+	if m := failure.Load(); m != nil {
+		fmt.Printf("MISMATCH %s\n", m)
+		os.Exit(3)
+	}
+	fmt.Printf("OK rounds=%d callbacks=%d trace_bytes=%d cpu_profile_bytes=%d\n", rounds, stressStats.gcs, tb.Len(), cb.Len())
+}
+
+// namesMode: many types compiled in ONE module (PretouchMany: names such as encode_map[string][]main.leaf contain
+// brackets), then tracebacks from callbacks that resolve the function names of the generated frames
+func namesMode() {
+	atomic.StoreInt32(&stressKind, 2)
+	types := []reflect.Type{reflect.TypeOf(map[string][]callbackM{}), reflect.TypeOf([]callbackM{}), reflect.TypeOf([3]callbackT{}),
+		reflect.TypeOf(map[string]map[string][2]callbackM{}), reflect.TypeOf(big{}), reflect.TypeOf([]map[string]leaf{}),
+		reflect.TypeOf(leaf{}), reflect.TypeOf(map[tkey][]int{}), reflect.TypeOf([4][]string{}), reflect.TypeOf(callbackM{}), reflect.TypeOf(map[string]callbackT{})}
+	if err := sonic.PretouchMany(types, option.WithCompileRecursiveDepth(4), option.WithCompileMaxInlineDepth(1)); err != nil {
+		fmt.Printf("MISMATCH pretouch: %v\n", err)
+		os.Exit(3)
+	}
+	r := rng.New(*seed)
+	vals := []interface{}{
+		map[string][]callbackM{"a": {{1}, {2}}, "b": nil},
+		[]callbackM{{3}},
+		[3]callbackT{{"x"}, {"y"}, {"z"}},
+		map[string]map[string][2]callbackM{"m": {"n": {{4}, {5}}}},
+		map[tkey][]int{{"k"}: {1, 2}},
+		map[string]callbackT{"t": {"u"}},
+	}
+	for i := 0; i < *n; i++ {
+		if msg := roundTrip(r); msg != "" {
+			fmt.Printf("MISMATCH %s\n", msg)
+			os.Exit(3)
+		}
+		for _, v := range vals {
+			got, err := sonic.ConfigStd.Marshal(v)
+			want, _ := json.Marshal(v)
+			if err != nil || !bytes.Equal(got, want) {
+				fmt.Printf("MISMATCH marshal %T: %v %s vs %s\n", v, err, got, want)
+				os.Exit(3)
+			}
+			pv := reflect.New(reflect.TypeOf(v))
+			if err := sonic.ConfigStd.Unmarshal(want, pv.Interface()); err != nil || !reflect.DeepEqual(pv.Elem().Interface(), v) {
+				fmt.Printf("MISMATCH unmarshal %T: %v\n", v, err)
+				os.Exit(3)
+			}
+		}
+	}
+	nameStats.Lock()
+	defer nameStats.Unlock()
+	if len(nameStats.bad) > 0 || nameStats.jit == 0 {
+		fmt.Printf("MISMATCH function names of generated frames do not resolve: bad=%v jit_frames=%d\n", nameStats.bad, nameStats.jit)
+		os.Exit(3)
+	}
+	brack := 0
+	for nm := range nameStats.names {
+		if strings.Contains(nm, "[...]") {
+			brack++
+		}
+	}
+	fmt.Printf("OK jit_frames=%d distinct_names=%d bracket_names=%d callbacks=%d\n", nameStats.jit, len(nameStats.names), brack, stressStats.gcs)
+}
+
+// funcnameMode: random name lists through loader.makeFuncnameTab (hook)
+func funcnameMode() {
+	r := rng.New(*seed)
+	pieces := []string{"encode_", "decode_", "map[string]", "[]", "[3]", "main.T", "int", "[", "]", "x", "struct { A []int }", "*", "github.com/a/b.T[int]", "", "é"}
+	var cases, impl []string
+	for i := 0; i < *n; i++ {
+		k := r.Intn(6)
+		if i == 0 {
+			k = 0
+		}
+		names := make([]string, k)
+		hexs := make([]string, k)
+		for j := range names {
+			var sb strings.Builder
+			for m := r.Intn(5); m >= 0; m-- {
+				sb.WriteString(pieces[r.Intn(len(pieces))])
+			}
+			names[j] = sb.String()
+			hexs[j] = hex.EncodeToString([]byte(names[j]))
+			if hexs[j] == "" {
+				hexs[j] = "-"
+			}
+		}
+		tab, offs := loader.VerifFuncnameTab(names)
+		os2 := make([]string, len(offs))
+		for j, o := range offs {
+			os2[j] = fmt.Sprint(o)
+		}
+		cl := "fn\t" + strings.Join(hexs, ",")
+		if k == 0 {
+			cl = "fn\t"
+		}
+		cases = append(cases, cl)
+		impl = append(impl, fmt.Sprintf("fn\t%s\t%s", hex.EncodeToString(tab), strings.Join(os2, ",")))
+	}
+	writeLines(*casef, cases)
+	writeLines(*outp, impl)
+}
+
 func main() {
 	flag.Parse()
 	switch *mode {
@@ -760,6 +1048,12 @@ func main() {
 		jitMode()
 	case "gc":
 		gcMode()
+	case "prof":
+		profMode()
+	case "names":
+		namesMode()
+	case "funcname":
+		funcnameMode()
 	default:
 		fmt.Fprintln(os.Stderr, "unknown mode")
 		os.Exit(2)
